@@ -19,11 +19,16 @@ mod source;
 mod c06;
 mod c07;
 mod c08;
+mod c09;
+mod sio;
+
+#[global_allocator]
+static ALLOC: sio::CountingAlloc = sio::CountingAlloc;
 
 use scenario::{Scenario, Tier};
 
 fn scenarios() -> Vec<Box<dyn Scenario>> {
-    vec![Box::new(c06::C06), Box::new(c07::C07), Box::new(c08::C08)]
+    vec![Box::new(c06::C06), Box::new(c07::C07), Box::new(c08::C08), Box::new(c09::C09)]
 }
 
 fn main() {
